@@ -1,10 +1,10 @@
-(* HeapP: the theorems of task L about MG.Model.Heap, collected.  The proofs are in HeapP1.v ... HeapP21.v (compile them first,
-   in numeric order, with HeapWfb.v after HeapP1.v; see NOTES.md). *)
+(* HeapP: the theorems of task L about MG.Model.Heap, collected.  The proofs are in HeapP1.v ... HeapP25.v (compile them first,
+   in numeric order, with HeapWfb.v after HeapP1.v: ./build.sh; see NOTES.md). *)
 From Coq Require Import List Arith Bool PeanoNat Lia.
 Import ListNotations.
 From MG Require Import Model.Heap.
 Require Import HeapP1 HeapWfb HeapP2 HeapP3 HeapP4 HeapP5 HeapP6 HeapP7 HeapP8 HeapP9 HeapP10 HeapP11 HeapP12 HeapP13 HeapP14
-               HeapP15 HeapP16 HeapP17 HeapP18 HeapP19 HeapP20 HeapP21 HeapEx.
+               HeapP15 HeapP16 HeapP17 HeapP18 HeapP19 HeapP20 HeapP21 HeapP22 HeapP23 HeapP24 HeapP25 HeapEx.
 
 (* ---- well-formedness *)
 Check wfb_wf      : forall h, wfb h = true <-> wf h.
@@ -37,6 +37,11 @@ Check dup_routes_originals : forall h0 b h1 g tb L, DupSpec h0 b h1 g tb L -> fo
 Check dup_routes_placeholders.
 Check cx_T2.   (* the unrestricted statement of T2 is false *)
 
+(* ---- T4 inplace_success *)
+Check inplace_success_spec.
+Check SuccFacts.
+Print SuccFacts.
+
 (* ---- T5 wf_step *)
 Check wf_step : forall h s o, wf h -> stmt_ok h s -> step h s = Some o -> wf (heap_of o).
 Check wf_reachable : forall ss h', run_ok empty_heap ss -> run empty_heap ss = Some h' -> wf h'.
@@ -46,3 +51,4 @@ Print Assumptions inplace_not_stuck.
 Print Assumptions dup_restore.
 Print Assumptions dup_routes_registered.
 Print Assumptions wf_step.
+Print Assumptions inplace_success_spec.
